@@ -267,6 +267,91 @@ def expr_job(job):
 
 
 # ---------------------------------------------------------------------------------------------
+# sequences of expressions evaluated in ONE process (direct-evaluation path), symbolic exponents
+# ---------------------------------------------------------------------------------------------
+SEQ_NAMES = ['alpha', 'b', 'c', 'd', 'g']
+SEQ_GROUPS = [
+    # every group: expressions whose operations have the same top-level form over sub-results of different length
+    ['alpha^(b*c)', 'alpha^(b*c*d*g)'],
+    ['alpha^(b+c)', 'alpha^(b+c+d+g)'],
+    ['(b*c)^alpha', '(b*c*d*g)^alpha'],
+    ['g^(alpha*b)', 'g^(b*c*d*alpha)', '(alpha*b)^g'],
+    ['alpha^sin(b)', 'alpha^sin(b*c*d*g)'],
+]
+
+
+def seq_job(job):
+    """the expressions of job['seq'] are parsed and evaluated one after the other in this process (eval_node on symbols);
+    each value must be what Python's own arithmetic gives for the text (x**y with a symbolic y is an uninterpreted
+    pow(x, y) on both sides), whatever was evaluated before"""
+    from pyrates.backend.parser import ExpressionParser
+    from pyrates.backend.computegraph import ComputeGraph
+    out = dict(violations=[], inconclusive=[], verdicts=[])
+    tally = decide.Tally()
+    for pos, rhs in enumerate(job['seq']):
+        try:
+            args = {n: {'vtype': 'constant', 'value': np.asarray(0.5 + 0.25 * i), 'shape': (), 'dtype': 'float64'}
+                    for i, n in enumerate(SEQ_NAMES)}
+            args['zz'] = {'vtype': 'state_var', 'value': np.asarray(0.0), 'shape': (), 'dtype': 'float64'}
+            cg = ComputeGraph(backend='default')
+            ExpressionParser(expr_str=f"zz = {rhs}", args=args, cg=cg).parse_expr()
+            syms = {n: symx.real(f"v_{n}") for n in SEQ_NAMES}
+            for n in SEQ_NAMES:
+                try:
+                    cg.get_var(n)._value = syms[n]
+                except Exception:   # noqa
+                    pass
+            symx.Ctx.cur = symx.Ctx()
+            got = cg.eval_node(cg.var_updates['non-DEs']['zz'])
+            pc = list(symx.Ctx.cur.pc)
+            if isinstance(got, np.ndarray):
+                got = got.reshape(-1)[0] if got.size == 1 else got
+            ref = eval(rhs.replace('^', '**'), {'__builtins__': {}}, dict(syms, sin=lambda x: x.sin()))
+            v, model = decide.prove_equal(got, ref, pc=pc, tally=tally)
+            out['verdicts'].append(v)
+            if v == 'sat':
+                # replay on floats: the same sequence in a fresh interpreter state is this process itself - evaluate the
+                # real graph on numbers and compare with Python's arithmetic
+                import math
+                env = {n: 1.25 + 0.5 * i for i, n in enumerate(SEQ_NAMES)}
+                cg2 = ComputeGraph(backend='default')
+                a2 = {n: {'vtype': 'constant', 'value': np.asarray(env[n]), 'shape': (), 'dtype': 'float64'} for n in SEQ_NAMES}
+                a2['zz'] = {'vtype': 'state_var', 'value': np.asarray(0.0), 'shape': (), 'dtype': 'float64'}
+                ExpressionParser(expr_str=f"zz = {rhs}", args=a2, cg=cg2).parse_expr()
+                real = float(np.asarray(cg2.eval_node(cg2.var_updates['non-DEs']['zz'])).reshape(-1)[0])
+                want = float(eval(rhs.replace('^', '**'), {'__builtins__': {}}, dict(env, sin=math.sin)))
+                if abs(real - want) > 1e-9 * max(1.0, abs(want)):
+                    tally.sat_confirmed += 1
+                    out['violations'].append(dict(kind='eval-node-sequence', env=env, sequence=list(job['seq'][:pos + 1]),
+                                                  what=f"eval_node('{rhs}') = {real} after evaluating {list(job['seq'][:pos])} "
+                                                       f"in the same process; its arithmetic value is {want}"))
+                else:
+                    tally.sat_spurious += 1
+                    out['inconclusive'].append(dict(kind='eval-sat-not-reproduced', what=rhs))
+            elif v == 'unknown':
+                out['inconclusive'].append(dict(kind='solver-unknown', what='eval_node ' + rhs))
+        except symx.Unsupported as ex:
+            out['inconclusive'].append(dict(kind='engine', what=f"eval_node sequence: {ex}"))
+        except Exception as ex:   # noqa
+            out['inconclusive'].append(dict(kind='engine', what=f"eval_node sequence `{rhs}` raised {type(ex).__name__}: {ex}"))
+    out['tally'] = tally.as_dict()
+    return out
+
+
+def seq_jobs(tier):
+    import itertools
+    jobs = []
+    for gi, grp in enumerate(SEQ_GROUPS):
+        perms = list(itertools.permutations(grp)) if (tier == 'thorough' or len(grp) == 2) else [tuple(grp), tuple(grp[::-1])]
+        for pi_, seq in enumerate(perms):
+            jobs.append(dict(key=f"eval-sequence:{gi}:{pi_}", seq=list(seq)))
+    allx = [x for grp in SEQ_GROUPS for x in grp]
+    jobs.append(dict(key='eval-sequence:all', seq=allx))
+    jobs.append(dict(key='eval-sequence:all-reversed', seq=allx[::-1]))
+    return jobs
+
+
+# ---------------------------------------------------------------------------------------------
 # index helpers (direct-evaluation path): vectors / matrices of symbols, every helper and every position
 # ---------------------------------------------------------------------------------------------
 def index_cases(nv=4, shape=(2, 3)):
@@ -365,7 +450,7 @@ def run(tier='quick', seed=0, only=None, verbose=False):
                                     'pyrates.backend.parser.ExpressionParser._preprocess_expr_str / parse_expr (concrete)',
                                     'ComputeGraph._generate_unique_label, parser.split_equation (CrossHair)'],
                  bounds=dict(depth='<=3 (quick) / <=5 (thorough)', functions=UNARY + BINARY_F,
-                             operators='+ - * / ^ unary-', literals='ints, dyadic fractions, pi, E',
+                             operators='+ - * / ^ unary-', sequences='powers with symbolic exponents (x^y as an uninterpreted pow), 2-3 expressions evaluated one after the other in one process, all orders', literals='ints, dyadic fractions, pi, E',
                              identifier_pools=NAME_POOLS, renderings='spacing, ^ vs **, parentheses, literal spelling, '
                                                                       "d/dt * x vs x'"),
                  stubs=['numpy library model'],
@@ -439,6 +524,23 @@ def run(tier='quick', seed=0, only=None, verbose=False):
             rep.violation(dict(property='C05', key=job['key'], **v))
         for i in r['inconclusive']:
             rep.inconcl(dict(key=job['key'], **i))
+    sj = seq_jobs(tier)
+    if only:
+        sj = [j for j in sj if only in j['key']]
+    for job, outc in runner.run_jobs(seq_job, sj, timeout=300):
+        if not outc['ok']:
+            rep.harness_error(f"{job['key']}: {outc['error']} {outc.get('tb', '')[-300:]}")
+            continue
+        r = outc['result']
+        rep.add_stats(outc['stats'])
+        rep.add_tally(r['tally'])
+        rep.program(job['key'], sample=dict(key=job['key'], sequence=job['seq'], verdicts=r['verdicts']))
+        for v in r['violations']:
+            rec = dict(property='C05', key=job['key'], **v)
+            rec['what'] = f"{job['key']}: {v['what']}"
+            rep.violation(rec)
+        for i in r['inconclusive']:
+            rep.inconcl(dict(key=job['key'], **{k: str(x)[:300] for k, x in i.items()}))
     if not only or 'crosshair' in only:
         ch.consume(rep, 'pyverif.chh.c05_strings', timeout=120 if tier == 'quick' else 400)
     return rep.finish(rule='program = random expression tree (depth, functions, identifier pool) rendered with random '
